@@ -280,3 +280,58 @@ func (c *Ctx) rulesR6delall() {
 		c.check(len(c.sitesIn(g, funcKey(f))) >= 1, "C20.delall", m+" delegates to SRem", g.Pos(), "no call of SRem")
 	}
 }
+
+// rulesR6recmono: C17.recmono
+func (c *Ctx) rulesR6recmono() {
+	c.rule("C17.recmono", "the forked batch writes of the bbolt and badger backends store their snapshot of the machine record only when it is not older than the one stored last (the encode/put of the MachineRecord is guarded by a comparison on its NextId): the writes land in no particular order, and an older snapshot landing last makes a re-opened history resume its ids too low and overwrite records")
+	mr := c.namedType(ph, "MachineRecord")
+	fNext := c.field(ph, "MachineRecord", "NextId")
+	if mr == nil || fNext == nil {
+		c.undecided("C17.recmono: MachineRecord / NextId not found")
+		return
+	}
+	n := 0
+	for _, f := range c.Funcs {
+		tf := topFunc(f)
+		if tf.Name() != "writeDb" || tf.Pkg == nil {
+			continue
+		}
+		rel := relPkg(tf.Pkg.Pkg.Path())
+		if rel != ph+"/bbolt" && rel != ph+"/badger" {
+			continue
+		}
+		for _, b := range f.Blocks {
+			for _, ins := range b.Instrs {
+				call, ok := ins.(*ssa.Call)
+				if !ok || calleeName(&call.Call) != "encode" {
+					continue
+				}
+				isRec := false
+				for _, a := range call.Call.Args {
+					v := a
+					if mi, ok := v.(*ssa.MakeInterface); ok {
+						v = mi.X
+					}
+					if namedOf(v.Type()) == mr {
+						isRec = true
+					}
+				}
+				if !isRec {
+					continue
+				}
+				n++
+				good := false
+				for _, g := range guardsOf(b) {
+					if mentionsField(g.Cond, fNext) {
+						good = true
+					}
+				}
+				c.check(good, "C17.recmono", funcKey(tf)+": the machine record is stored only if it is not older than the stored one", call.Pos(),
+					"the snapshot of the machine record is encoded and stored unconditionally: an older batch landing after a newer one rolls NextId back")
+			}
+		}
+	}
+	if n < 2 {
+		c.undecided(fmt.Sprintf("C17.recmono: only %d machine-record writes found in bbolt/badger writeDb (expected 2)", n))
+	}
+}
